@@ -186,7 +186,23 @@ func runC15(c *core.Ctx) {
 	}
 
 	// ---------------------------------------------------------------- owners
-	c.Rule("C15.owners", "the controls are touched only in the ways that implement them: (a) a function of the library that reads Budget.NodeBudget / LinkBudget also decrements that counter in its own body, or only copies it into another Budget; (b) every store to Progress.PastStartAtPath stores a value known to be true at that point (the flag latches, it is never recomputed or reset); (c) every insertion into Progress.SeenLinks is behind the true edge of Config.LinkVisitOnlyOnce and behind the miss edge of a comma-ok lookup of the same key in SeenLinks", 6)
+	// insideWalk: g runs during a walk - it is one of the recursive functions or is reached from one. What the
+	// exported entry points do once, before the recursion starts (Progress.init), is outside.
+	insideWalk := func(g *ssa.Function) bool {
+		for g.Parent() != nil {
+			g = g.Parent()
+		}
+		if tr.recursive(g) {
+			return true
+		}
+		for _, r := range tr.fns {
+			if tr.recursive(r) && tr.reaches(r, g) {
+				return true
+			}
+		}
+		return false
+	}
+	c.Rule("C15.owners", "the controls are touched only in the ways that implement them: (a) a function of the library that reads Budget.NodeBudget / LinkBudget also decrements that counter in its own body, or only copies it into another Budget; (b) every store to Progress.PastStartAtPath stores a value known to be true at that point (the flag latches, it is never recomputed or reset); (c) every insertion into Progress.SeenLinks is behind the true edge of Config.LinkVisitOnlyOnce and behind the miss edge of a comma-ok lookup of the same key in SeenLinks; (d) a function that runs during a walk (a recursive function of package traversal or one reached from it) replaces the Progress.Budget pointer only behind the true edge of Config.Preloader != nil - the rewind after a preload pass: everything below one entry point charges the same Budget object", 6)
 	for _, fn := range p.ModFns {
 		pk := core.FuncPkg(fn)
 		if pk == nil || !libraryPkg(core.RelPkg(pk.Path())) || len(fn.Blocks) == 0 || fn.Synthetic != "" {
@@ -224,7 +240,7 @@ func runC15(c *core.Ctx) {
 			switch x := in.(type) {
 			case *ssa.Store:
 				fa, ok := x.Addr.(*ssa.FieldAddr)
-				if ok && core.FieldName(fa) == "Progress.Budget" {
+				if ok && core.FieldName(fa) == "Progress.Budget" && insideWalk(fn) {
 					// (d) the budget object is the caller's: one Budget is charged by the whole traversal, nested and
 					// re-entered walks included, because everybody holds the same pointer. The only replacement is the
 					// rewind between the preload pass and the real pass, which exists only when a Preloader is configured.
